@@ -65,6 +65,7 @@ FileLoad(e) ==
                    cpuBad == CpuDiff(d.cpu, st, (IF e.is_sna THEN SnaCpuFields ELSE AllCpuFields) \ (IF e.opts.halted THEN {"pc"} ELSE {}))
                IN {"cpu" : k \in cpuBad}
                   \cup (IF st.border # d.border THEN {"border"} ELSE {})
+                  \cup (IF {e.border_painted[i] : i \in DOMAIN e.border_painted} # {d.border} THEN {"border:painted"} ELSE {})
                   \cup (IF e.m_file = 128 /\ (st.latch # d.latch \/ st.locked # (Bit(d.latch, 5) = 1)) THEN {"paging"} ELSE {})
                   \cup (IF e.ram_diff # <<>> THEN {"ram"} ELSE {})
                   \* "every RAM page as seen by ... the display": sampled pixels of a later frame are the standard decode
